@@ -3,6 +3,7 @@ package tartrans
 import (
 	"archive/tar"
 	"fmt"
+	"path"
 
 	"github.com/polydawn/go-timeless-api/rio"
 	"github.com/polydawn/rio/fs"
@@ -54,7 +55,10 @@ func fsTypeToTarType(fsType fs.Type) byte {
 // Mutate fs.Metadata fields to match the given tar header.
 // Does not check for names that go above '.'; caller may want to do that.
 func TarHdrToMetadata(hdr *tar.Header, fmeta *fs.Metadata) (skipMe error, haltMe error) {
-	fmeta.Name = fs.MustRelPath(hdr.Name) // FIXME should not use the 'must' path
+	if path.IsAbs(path.Clean(hdr.Name)) {
+		return nil, Errorf(rio.ErrWareCorrupt, "corrupt tar: absolute path %q is invalid", hdr.Name)
+	}
+	fmeta.Name = fs.MustRelPath(hdr.Name)
 	fmeta.Type, skipMe = tarTypeToFsType(hdr.Typeflag)
 	if skipMe != nil {
 		return skipMe, nil
